@@ -68,8 +68,8 @@ func normalise(real string) string {
 // TestDifferential compares the model with the real interpreter on the
 // programs in testdata: *.calc run in file mode (with *.stdin as input), *.repl
 // are piped to the REPL. It needs CALC_REF=/path/to/calc binary. Differences
-// in files named known_* are only logged: they demonstrate defects of the real
-// interpreter.
+// in files named known_* are only logged: they document where the real interpreter
+// departs from the rules of the model.
 func TestDifferential(t *testing.T) {
 	ref := os.Getenv("CALC_REF")
 	if ref == "" {
@@ -95,7 +95,7 @@ func TestDifferential(t *testing.T) {
 		switch {
 		case got == want:
 		case strings.HasPrefix(filepath.Base(file), "known_"):
-			t.Logf("%s (known defect of the real interpreter):\n--- model\n%s\n--- real\n%s", file, got, want)
+			t.Logf("%s (known difference from the real interpreter):\n--- model\n%s\n--- real\n%s", file, got, want)
 		default:
 			t.Errorf("%s:\n--- model\n%s\n--- real\n%s", file, got, want)
 		}
